@@ -34,6 +34,7 @@ def write(agg, counters, violations, knowns, wall):
         "rule": mod.RULE,
         "samples": samples,
         "outcomes": outcomes,
+        "abnormal_cases": {o: [cid for cid in agg.order if (agg.results.get(cid) or {}).get("outcome") == o][:40] for o in ("crash", "hang") if outcomes.get(o)},
         "reach_counters": dict(sorted(counters.items())),
         "reach_sets": {k: len(v) for k, v in sorted(agg.sets().items())},
         "known_findings_hit": {k: len(v) for k, v in sorted(knowns.items())},
